@@ -6,6 +6,7 @@ mod c05;
 mod c24;
 mod c27;
 mod c30;
+mod c32;
 mod hist;
 mod report;
 mod world;
@@ -20,6 +21,10 @@ fn main() {
         ("C04", tier) => c04::check(tier),
         ("C24", "--replay") => c24::replay(&args[3]),
         ("C24", tier) => c24::check(tier),
+        ("C32", "--replay") => c32::replay("C32", &args[3]),
+        ("C32", tier) => c32::check("C32", tier),
+        ("C34", "--replay") => c32::replay("C34", &args[3]),
+        ("C34", tier) => c32::check("C34", tier),
         ("C30", "--replay") => c30::replay(&args[3]),
         ("C30", tier) => c30::check(tier),
         ("C27", "--replay") => c27::replay(&args[3]),
